@@ -322,6 +322,15 @@ def witness_created_parent_has_no_inherit(prog, fn: ast.AST) -> bool:
         if isinstance(v, ast.Call) and callee(v) == "any" and len(v.args) == 1 and isinstance(v.args[0], (ast.GeneratorExp, ast.ListComp)) \
                 and norm(v.args[0].generators[0].iter) == f"{hp}.values":
             inside = True  # any(<… for item in set.values …>) is False for an empty set
+        if isinstance(v, ast.Call) and callee(v) == "any" and len(v.args) == 1 and isinstance(v.args[0], (ast.GeneratorExp, ast.ListComp)):
+            it_ = v.args[0].generators[0].iter
+            if isinstance(it_, ast.Call) and isinstance(it_.func, ast.Name) and it_.args and norm(it_.args[0]) == hp and it_.func.id in prog.funcs:
+                # any(… for name in names_of(set)) with a generator function that yields only from inside a loop over set.values
+                gen = prog.funcs[it_.func.id]
+                gp = gen.params()[0] if gen.params() else None
+                ys = [y for y in ast.walk(gen.node) if isinstance(y, (ast.Yield, ast.YieldFrom))]
+                if gp and ys and all(any(isinstance(l, ast.For) and norm(l.iter) == f"{gp}.values" and any(y is z for z in ast.walk(l)) for l in ast.walk(gen.node)) for y in ys):
+                    inside = True
         if not inside:
             return False
     # created parents are empty attribute sets
